@@ -48,6 +48,8 @@ def pick(rng):
         return {"name": "priors", "kind": "priors"}
     if u < 0.46:
         return {"name": "subst", "kind": "subst"}
+    if u < 0.54:
+        return {"name": "variational", "kind": "variational"}
     i = rng.randint(0, len(CLI_VECTORS) - 1)
     sub = rng.choice(["mcmc", "mcmc", "advi"])
     return {"name": "cli:%s:%s" % (sub, " ".join(CLI_VECTORS[i])), "kind": "cli", "sub": sub, "args": CLI_VECTORS[i]}
@@ -77,6 +79,8 @@ def _build(recipe):
         return _cli(recipe)
     if kind == "subst":
         return _subst()
+    if kind == "variational":
+        return _variational()
     raise ValueError(kind)
 
 
@@ -191,4 +195,27 @@ def _subst():
     ]
     dom = {"mg.kappa": "positive", "mg.alpha": "positive", "mg.beta": "positive", "mg.freqs": "simplex", "gs.rates": "positive", "gs.freqs": "simplex",
            "gn.rates": "positive", "gn.freqs": "simplex"}
+    return spec, dom
+
+
+def _variational():
+    """Every variational objective over one joint and one mean-field family: each
+    read draws fresh samples into the latent parameters and evaluates p and q at them."""
+    P, T, D = scenes.param, scenes.transformed, scenes.dist
+    spec = scenes.toy_joint(dim=2)
+    spec.append(scenes.joint("variational", [
+        D("qx", "torch.distributions.Normal", "x", {"loc": P("qx.loc", [0.1, 0.2]), "scale": T("qx.scale", "torch.distributions.ExpTransform", P("qx.scale.unres", [-1.0, -0.5]))}),
+        D("qz", "torch.distributions.Normal", "z", {"loc": P("qz.loc", [0.0, 0.2]), "scale": T("qz.scale", "torch.distributions.ExpTransform", P("qz.scale.unres", [-1.5, -1.0]))}),
+    ]))
+    common = {"joint": "joint", "variational": "variational"}
+    spec += [
+        dict({"id": "elbo", "type": "ELBO", "samples": 3}, **common),
+        dict({"id": "elbo.multi", "type": "ELBO", "samples": [3, 2]}, **common),
+        dict({"id": "elbo.entropy", "type": "ELBO", "samples": 2, "entropy": True}, **common),
+        dict({"id": "elbo.score", "type": "ELBO", "samples": 4, "score": True}, **common),
+        dict({"id": "klpq", "type": "KLpq", "samples": 4}, **common),
+        dict({"id": "vr", "type": "VR", "samples": 4, "alpha": 0.5}, **common),
+        dict({"id": "cubo", "type": "CUBO", "samples": 4, "n": 2.0}, **common),
+    ]
+    dom = {"qx.loc": "real", "qx.scale.unres": "real", "qz.loc": "real", "qz.scale.unres": "real"}
     return spec, dom
